@@ -298,7 +298,7 @@ class Gen:
 # ---------------------------------------------------------------------------------------------
 # rendering
 WS1 = [' ', ' ', ' ', '\n', '\t', '  ', '\r\n', ' \n ', '\n\n']
-COMMENTS = ['/* c */', '/* a;b */', "/* it's */", '-- c\n', '-- a;b\n', "--'x\n", '/*+ hint */', '/**/', '# c\n']
+COMMENTS = ['/* c */', '/* a;b */', "/* it's */", '-- c\n', '-- a;b\n', "--'x\n", '/*+ hint */', '/**/', '# c\n', '--+ full(t)\n', '/*+ idx(t i) */']
 
 
 def needs_space(prev, cur):
@@ -335,6 +335,10 @@ class Layout:
         must = needs_space(prev, cur)
         if self.comments and self.r.random() < self.comments:
             c = self.r.choice(COMMENTS)
+            if self.r.random() < 0.25:
+                # two comments directly adjacent (e.g. an optimizer hint next to an ordinary comment)
+                c2 = self.r.choice(COMMENTS)
+                c = c + (c2 if c.endswith('\n') or self.r.random() < 0.5 else '\n' + c2)
             pre = self.wsrun() if (must or self.r.random() < 0.7 or c[0] in '-#') else ''
             post = '' if c.endswith('\n') and self.r.random() < 0.5 else (self.wsrun() if (must or self.r.random() < 0.5) else '')
             if c.startswith('#') and not pre:
@@ -394,6 +398,9 @@ def render_script(stmts, layout, final_semi=True, sep_ws=None):
         last = i == len(stmts) - 1
         if not last or final_semi:
             parts.append((layout.wsrun() if layout.r.random() < 0.2 else '') + ';')
+            if layout.comments and layout.r.random() < 0.15:
+                # a trailing single-line comment after the semicolon belongs to the statement it follows
+                parts.append(layout.r.choice([' ', '  ', '\t']) + layout.r.choice(['-- trailing\n', '-- c\n', '# t\n']))
         if not last:
             parts.append(layout.wsrun() if sep_ws is None else sep_ws)
     return ''.join(parts)
